@@ -480,6 +480,12 @@ class SkelEval(Eval):
             if m == 'is_sign_positive':
                 return math.copysign(1, r.value) > 0
             raise Unbound(t)
+        if m in ('collect_into_HashSet', 'collect_into_BTreeSet'):
+            items = self.iterable(r, recv)
+            try:
+                return frozenset(items)          # membership only: iterating a hashed set has no defined order (ev.iterable refuses it)
+            except TypeError:
+                raise Unbound(t)
         if m in ('keys',):
             return list(r.keys())
         if m == 'values':
